@@ -1,6 +1,9 @@
 """C11 — 128-bit code paths agree with the 64-bit paths and continue beyond 2^63."""
 from ..runner import Stream
 from .. import gen
+from .. import params_streams
+
+EXTRA_MODULES = ["C11Safe"]
 
 RULE = ("every partial formula and both full algorithms through the int128_t instantiation AND the int64_t one on the same "
         "(x, y, z, k|c): outputs must be identical and equal to the defining sums (x <= 2e7) ; thorough: continuation at 2^63 +- d "
@@ -46,7 +49,7 @@ def streams(ctx):
         return dis
     st2 = Stream("wide_vs_narrow_large_x", ops2, oracle=True, judge=judge,
                  model_ops=lambda ops, impl: ["# " + o for o in ops], timeout=3000)
-    sts = [st1, st2]
+    sts = [st1, st2] + params_streams.c11_streams(ctx)
     if not ctx.quick:
         # continuation across 2^63 (expensive: minutes per call) through neighbouring values
         b = 2 ** 63
